@@ -74,7 +74,7 @@ enum {
 	PR_THREAD_EXIT_NODEINIT, PR_SIG_CB, PR_SIG_DURING_HANDLER, PR_SIG_HANDOFF, PR_WAIT_CB,
 	PR_PID_REUSED, PR_KILL_DEAD, PR_WORK_RUN, PR_WORK_DONE, PR_POOL_PUT_BUSY, PR_IDLE_TIMEOUT,
 	PR_PUMP_BYTES, PR_PUMP_FULL, PR_PUMP_EOF, PR_INOT_CB, PR_INOT_MULTI, PR_POPEN_KILL,
-	PR_REG_FAILED_EVENT, PR_TIMER_MANY, PR_RADIX_CROSS, PR_SIG_NOWALK, PR_SIG_FOREIGN, PR_REG_FAILED_EXT, PR_TIMER_PARKED, PR_REENTER, PR_PUMP_KICK, PR_WORK_DEPENDS, PR_TASK_FOREIGN_INIT, PR_INOT_FLOOD,
+	PR_REG_FAILED_EVENT, PR_TIMER_MANY, PR_RADIX_CROSS, PR_SIG_NOWALK, PR_SIG_FOREIGN, PR_REG_FAILED_EXT, PR_TIMER_PARKED, PR_REENTER, PR_PUMP_KICK, PR_WORK_DEPENDS, PR_TASK_FOREIGN_INIT, PR_INOT_FLOOD, PR_UNREG_INFLIGHT,
 	PR_MAX
 };
 
@@ -96,6 +96,7 @@ void reg_fault_disarm(int site);
 long faults_fired_total(void);
 void unexplained_failure(const char *what, int id, long fired_before);
 void note_progress(struct rthr *th);
+void engine_lock_event(int tid, int acquired, int spin);
 void hb_release(void *a);
 void hb_acquire(void *a);
 void viol(const char *id, const char *fmt, ...) __attribute__((format(printf, 2, 3)));
